@@ -31,8 +31,8 @@ func registerTimeIntrinsics() {
 	in := intrinsics
 	in["time.Now"] = func(fr *frame, a []Value) Value {
 		x := fr.x
-		sec := x.nondet("u64", 64, "time.Now.sec")
-		ns := x.nondet("u32", 32, "time.Now.nsec")
+		sec := x.nondet("env-u64", 64, "time.Now.sec")
+		ns := x.nondet("env-u32", 32, "time.Now.nsec")
 		x.assume(x.f.Bin(OpUlt, ns, x.f.Const(32, 1000000000)))
 		return x.mkTime(sec, x.f.ZExt(ns, 64))
 	}
@@ -112,7 +112,7 @@ func registerTimeIntrinsics() {
 		return x.mkTime(x.f.UF("time_add_s", 64, s, n, d), x.f.ZExt(x.f.Bin(OpURem, x.f.UF("time_add_n", 32, s, n, d), x.f.Const(32, 1000000000)), 64))
 	}
 	in["time.Since"] = func(fr *frame, a []Value) Value {
-		return fr.x.nondet("u64", 64, "time.Since")
+		return fr.x.nondet("env-u64", 64, "time.Since")
 	}
 	timeTok := func(fr *frame, t Value, layout Value) []*Term {
 		x := fr.x
@@ -145,7 +145,7 @@ func registerMoreIntrinsics() {
 	in["math/rand.Intn"] = func(fr *frame, a []Value) Value {
 		x := fr.x
 		n := a[0].(*Term)
-		v := x.nondet("u64", 64, "rand.Intn")
+		v := x.nondet("env-u64", 64, "rand.Intn")
 		x.assume(x.f.Bin(OpUlt, v, n))
 		return v
 	}
@@ -181,6 +181,42 @@ func registerMoreIntrinsics() {
 			// address notations use only hex digits, '.', ':' and '/': no byte that needs escaping
 			return Str{[]*Term{x.f.Bin(OpAdd, x.f.Const(8, 'a'), x.f.Bin(OpURem, u, x.f.Const(8, 6)))}}
 		}
+	}
+	// unique.Make: canonical cell per (type, concrete value); handles compare by pointer identity.
+	in["unique.Make"] = func(fr *frame, a []Value) Value {
+		x := fr.x
+		var symbolic func(v Value) bool
+		symbolic = func(v Value) bool {
+			switch v := v.(type) {
+			case *Term:
+				return !v.IsConst()
+			case Str:
+				_, ok := concreteString(v)
+				return !ok
+			case Struct:
+				for _, e := range v {
+					if symbolic(e) {
+						return true
+					}
+				}
+				return false
+			}
+			return true
+		}
+		if symbolic(a[0]) {
+			abortf("unique.Make of a symbolic value")
+		}
+		key := fr.fn.Signature.Params().At(0).Type().String() + "|" + describe(a[0])
+		if x.uniq == nil {
+			x.uniq = map[string]*Value{}
+		}
+		p, ok := x.uniq[key]
+		if !ok {
+			cell := copyVal(a[0])
+			p = &cell
+			x.uniq[key] = p
+		}
+		return Struct{p}
 	}
 	in["(net.IP).String"] = netTok("tok_ip")
 	in["(*net.IPNet).String"] = netTok("tok_ipnet")
@@ -247,7 +283,7 @@ func registerMoreIntrinsics() {
 		x := fr.x
 		arr := make(Array, 12)
 		for i := range arr {
-			arr[i] = x.nondet("u8", 8, "xid")
+			arr[i] = x.nondet("env-u8", 8, "xid")
 		}
 		return arr
 	}
